@@ -122,17 +122,14 @@ Proof.
     split; [|auto]. destruct HA as (H1 & H0 & H2 & H3). apply occ_seginv; auto.
     intros x Hx. apply DOM in Hx. apply (seginv_occ (output st) sg (conj H1 (conj H0 (conj H2 H3))) x Hx HR). }
   unfold write_stmt in HW. destruct (active st) as [|sg] eqn:EA.
-  - apply PUT; auto. destruct HL as [(sg & EA' & _)|B]; [discriminate|]. intros x H1 H2. apply B. unfold in_task. lia.
+  - apply PUT; auto. destruct HL as [(sg & EA' & _)|B]; [rewrite EA in EA'; discriminate EA'|]. intros x H1 H2. apply B. unfold in_task. lia.
   - destruct HL as [(sg' & EA' & B1 & B2)|B].
-    + inversion EA'; subst sg'. rewrite Ea in *. rewrite Es in *.
+    + rewrite EA in EA'. inversion EA'; subst sg'. rewrite Ea in *. rewrite Es in *.
       pose proof HA as (H1 & H0 & H2 & H3).
       rewrite (covers_spec dbg (output st) sg a HA) in HW.
       destruct ((s_base sg <=? a) && ((a - s_base sg <? blen sg) || (a - s_base sg =? blen sg) && (blen sg <? s_max sg))) eqn:Cv; [|lia].
-      assert (Hcur : a <= curr_addr sg).
-      { unfold curr_addr, sat_add32, CtxSeg.U32MAX, CtxSeg.U32, MapModel.U32MAX, MapModel.U32 in *.
-        assert (N.land (blen sg) 0xFFFFFFFF = blen sg).
-        { change 0xFFFFFFFF with (N.ones 32). rewrite N.land_ones. apply N.mod_small. change (2 ^ 32) with 4294967296. lia. }
-        lia. }
+      destruct (N.le_gt_cases a (curr_addr sg)) as [Hcur|Hcur];
+        [|exfalso; unfold seg_write_at in HW; destruct ((s_base sg <=? a) && (a <=? curr_addr sg)) eqn:X; [lia|]; cbn [negb] in HW; discriminate HW].
       destruct (write_at_ok dbg (output st) sg a data HA B1 Hcur ltac:(lia)) as (W1 & W2 & _). rewrite W1 in HW.
       inversion HW; subst r st'.
       assert (LS : mlen (splice (s_buf sg) (a - s_base sg) data) = mlen (s_buf sg)).
@@ -156,4 +153,242 @@ Proof.
       rewrite (covers_spec dbg (output st) sg a HA) in HW.
       destruct ((s_base sg <=? a) && ((a - s_base sg <? blen sg) || (a - s_base sg =? blen sg) && (blen sg <? s_max sg))) eqn:Cv; [lia|].
       apply PUT; auto.
+Qed.
+
+(* ------------------------------------------------------------------ a pending task, run at the end of the file *)
+Lemma simT_after_write E st st' cur ek G t ts a data :
+  SimT E st cur ek G (t :: ts) -> task_addr t = a -> task_size t = mlen data -> at_bytes G a data ->
+  ((forall x, view st' x = wr (view st) a data x) /\ Rep (output st') /\
+   (forall t', located st t' -> located st' t') /\
+   locals st' = locals st /\ path_stack st' = path_stack st /\ errors st' = errors st /\ global_tasks st' = global_tasks st /\
+   local_tasks st' = local_tasks st /\
+   match active st with
+   | Active sg => exists sg', active st' = Active sg' /\ SegInv (output st') sg' /\ s_base sg' = s_base sg /\ blen sg' = blen sg
+   | Inactive => active st' = Inactive
+   end) -> SimT E st' cur ek G ts.
+Proof.
+  intros [R T V C Er Gt A D L P W] Ea Es AB (HV & R' & HL & EL & EP & EE & EG & _ & HA).
+  inversion L as [|? ? Lt Lts]; inversion P as [|? ? Pt Pts]; subst.
+  assert (InR : forall x, task_addr t <= x -> x < task_addr t + mlen data -> view st x <> None).
+  { intros x X1 X2. apply (located_view st t Lt). unfold in_task. lia. }
+  constructor; auto.
+  - rewrite EL, EP. exact T.
+  - destruct cur as [c|].
+    + destruct C as (sg & EA & HI & Ec). rewrite EA in HA. destruct HA as (sg' & EA' & HI' & B1 & B2).
+      exists sg'. split; [exact EA'|]. split; [exact HI'|]. congruence.
+    + rewrite C in HA. exact HA.
+  - congruence.
+  - congruence.
+  - intros x. rewrite HV. unfold wr. destruct ((task_addr t <=? x) && (x <? task_addr t + mlen data)) eqn:Eq1; [|apply D].
+    split; intros _; [apply D; apply InR; lia|apply nth_error_some_len; lia].
+  - eapply Forall_impl; [|exact Lts]. intros t'. apply HL.
+  - intros x Hx. rewrite HV. unfold wr. destruct ((task_addr t <=? x) && (x <? task_addr t + mlen data)) eqn:Eq1.
+    + symmetry. apply AB; lia.
+    + apply W. intros t' [<-|Ht']; [unfold in_task; rewrite Es; lia|apply Hx; exact Ht'].
+Qed.
+
+Lemma env_le_refl e : env_le e e. Proof. intros n v H; exact H. Qed.
+
+Lemma run_task_sim dbg E st cur G t ts r st' :
+  SimT E st cur E G (t :: ts) -> local_tasks st = Some [] -> run_task dbg st t = Ret r st' -> errors st' = [] ->
+  r = None /\ SimT E st' cur E G ts /\ local_tasks st' = Some [].
+Proof.
+  intros H ELT HR HZ. pose proof H as [R T V C Er Gt A D L P W].
+  inversion L as [|? ? Lt Lts]; inversion P as [|? ? Pt Pts]; subst.
+  destruct T as (tbl & p & ps & EL & EP & TE).
+  assert (HAct : match active st with Active sg => SegInv (output st) sg | Inactive => True end).
+  { destruct cur as [c|]; [destruct C as (sg & EA & HI & _); rewrite EA; exact HI|rewrite C; exact I]. }
+  destruct t as [ai [|]|d [|]| |]; cbn [PendG] in Pt; try contradiction.
+  - (* instruction *)
+    destruct Pt as (a0 & a1 & v & iF & sF & nF & bF & EAst & HB & F0 & Dv & AF & EF & AB).
+    pose proof (enc_bytes_size _ _ _ EF) as (_ & LF). pose proof (assemble_args_isz _ _ _ _ _ _ _ AF) as IF.
+    cbn [run_task] in HR. unfold instr_assemble in HR. rewrite EAst in HR. cbn [a_args] in HR.
+    destruct (first_panic st [a1]); [dh|].
+    destruct (assemble_args (instr_ev st) false (ai_addr ai) (ai_instr ai) (mkAst [a1] 0)) as [i a2|cause a2|dg a2|] eqn:AM.
+    + cbn [CtxModel.bind] in HR. unfold write_instr in HR. cbn [ai_instr ai_file ai_line ai_col ai_addr] in HR.
+      assert (i = iF).
+      { apply (branch_staged (instr_ev st) (final_ev E) false false (ai_addr ai) (ai_instr ai) a0 a1 i a2 iF sF v HB); [| |exact AM|exact AF].
+        - intros x Hx. pose proof (instr_ev_fwd E E st tbl p ps EL EP TE (env_le_refl E) _ _ _ Hx) as F1.
+          apply (fwd_const (rho E) a0 x v); [apply (fwd_trans _ a0 a1 _ F0 F1)|exact Dv].
+        - intros x Hx. apply (fwd_const (rho E) a0 x v); [apply final_ev_const; exact Hx|exact Dv]. }
+      subst i. rewrite EF in HR.
+      assert (Hsz : task_size (InstrTask ai false) = mlen bF) by (cbn [task_size]; unfold mlen; rewrite LF; congruence).
+      assert (Hpos : 0 < mlen bF) by (unfold mlen; rewrite LF; destruct iF; cbn; lia).
+      destruct (write_over dbg st (InstrTask ai false) (ai_addr ai) bF _ _ _ _ _ _ r st' R HAct Lt eq_refl Hsz Hpos HR HZ) as (-> & Rest).
+      split; [reflexivity|]. split; [eapply simT_after_write; eauto|]. destruct Rest as (_ & _ & _ & _ & _ & _ & _ & LT & _). congruence.
+    + exfalso. destruct (assemble_args_defer _ _ _ _ _ _ _ AM) as (x & x' & sx & Ix & Ex & N1 & N2).
+      destruct Ix as [<-|[]].
+      eapply (instr_ev_defers E st tbl p ps EL EP TE); eauto.
+      apply den64_denZ in Dv. destruct Dv as (Dv & _). pose proof (F0 _ Dv) as D1.
+      intros m Hm. pose proof (denZ_idents _ _ _ D1 m Hm) as Hr. unfold rho in Hr.
+      change (AsmStmtModel.is_register m) with (CtxModel.is_register m) in Hr.
+      destruct (CtxModel.is_register m); [now left|right]. unfold lkE. destruct (env_get E m) as [w|]; [eauto|congruence].
+    + cbn [CtxModel.bind] in HR. inversion HR; subst. cbn [errors push_error_in set_errors] in HZ. discriminate HZ.
+    + dh.
+  - (* data *)
+    destruct Pt as (a0 & v & F0 & Dv & Rv & AB).
+    cbn [run_task] in HR. unfold data_apply in HR.
+    pose proof (ctx_eval_fwd E E st tbl p ps EL EP TE (env_le_refl E) (de_arg d)) as F.
+    destruct (ctx_eval st (de_arg d)) as [a' [ch|ch nm]|a' e|q] eqn:CE.
+    + assert (Ac : (exists v', a' = AConst v') \/ (forall v', a' <> AConst v')) by (destruct a'; eauto; right; intros; discriminate).
+      destruct Ac as [(v' & ->)|Nc];
+        [|destruct a'; try (exfalso; eapply Nc; reflexivity);
+          (cbn [CtxModel.bind] in HR; inversion HR; subst; cbn [errors push_error_in set_errors] in HZ; discriminate HZ)].
+      assert (v' = v) by (apply (fwd_const (rho E) a0 v' v); [apply (fwd_trans _ a0 (de_arg d) _ F0 F)|exact Dv]). subst v'. rewrite Rv in HR.
+      unfold write_data in HR. cbn [de_set_arg de_file de_line de_col de_addr de_kind] in HR. unfold CtxModel.bind at 1 in HR.
+      destruct (write_stmt dbg st (de_file d) (de_line d) (de_col d) (de_addr d) (le_n (dk_size (de_kind d)) (Z.to_N v))
+                  (KApply ASegOverflow) (KApply ASegWrite) P_put_assert_data) as [w st2| |] eqn:WS; try dh.
+      assert (st' = st2 /\ r = w) as (-> & ->) by (destruct w; cbn [CtxModel.bind] in HR; inversion HR; auto).
+      assert (Hsz : task_size (DataTask d false) = mlen (le_n (dk_size (de_kind d)) (Z.to_N v))) by (rewrite len_le_n'; reflexivity).
+      assert (Hpos : 0 < mlen (le_n (dk_size (de_kind d)) (Z.to_N v))) by (rewrite len_le_n'; destruct (de_kind d); cbn; lia).
+      destruct (write_over dbg st (DataTask d false) (de_addr d) _ _ _ _ _ _ _ w st2 R HAct Lt eq_refl Hsz Hpos WS HZ) as (-> & Rest).
+      split; [reflexivity|]. split; [eapply simT_after_write; eauto|]. destruct Rest as (_ & _ & _ & _ & _ & _ & _ & LT & _). congruence.
+    + exfalso. eapply (ctx_eval_not_deferred E st tbl p ps EL EP TE); exact CE.
+    + destruct e; cbn [CtxModel.bind] in HR; inversion HR; subst; cbn [errors push_error_in set_errors] in HZ; discriminate HZ.
+    + dh.
+Qed.
+
+Lemma local_round_sim dbg E : forall ts st cur G st' r', SimT E st cur E G ts -> local_tasks st = Some [] ->
+  local_round dbg ts st None = Ret r' st' -> errors st' = [] -> r' = None /\ SimT E st' cur E G [] /\ local_tasks st' = Some [].
+Proof.
+  induction ts as [|t ts IH]; intros st cur G st' r' H ELT HR HZ.
+  - cbn in HR. inversion HR; subst. auto.
+  - cbn [local_round] in HR. unfold CtxModel.bind in HR.
+    destruct (run_task dbg st t) as [x st1| |] eqn:RT; try discriminate.
+    destruct x as [lvl|].
+    + exfalso. pose proof (run_task_spec _ _ _ _ _ RT) as (_ & PP). specialize (PP ltac:(discriminate)).
+      assert (EX : ext st1 st').
+      { destruct (is_fatal lvl); [inversion HR; apply ext_refl|]. apply local_round_spec in HR. apply HR. }
+      eapply pushed_nonempty; [eapply pushed_ext_trans; eauto|exact HZ].
+    + pose proof (local_round_spec _ _ _ _ _ _ HR) as (EX & _).
+      assert (Z1 : errors st1 = []). { destruct EX as (l & EX). rewrite EX in HZ. destruct l; [exact HZ|discriminate]. }
+      destruct (run_task_sim dbg E st cur G t ts None st1 H ELT RT Z1) as (_ & H1 & E1).
+      apply (IH st1 cur G st' r' H1 E1 HR HZ).
+Qed.
+
+(* ------------------------------------------------------------------ the reference image *)
+Definition image_of (placed : list (N * list N * list str)) : list MapModel.seg :=
+  runs (fold_left (fun d x => d_write d (fst (fst x)) (snd (fst x))) placed []).
+
+Definition gstep (E : env) (d : dict) (x : N * item) : dict :=
+  match pass2_item E (fst x) (snd x) with Some bs => d_write d (fst x) bs | None => d end.
+
+Lemma pass2_fold E : forall its pl d0, pass2 E its = Some pl ->
+  fold_left (fun d x => d_write d (fst (fst x)) (snd (fst x)))
+            (map (fun x : N * list N * (N * item) => (fst (fst x), snd (fst x), item_idents (snd (snd x)))) (combine pl its)) d0
+  = fold_left (gstep E) its d0.
+Proof.
+  induction its as [|(a, it) r IH]; intros pl d0 H; cbn [pass2] in H.
+  - inversion H; subst. reflexivity.
+  - destruct (pass2_item E a it) as [b|] eqn:E1; [|discriminate]. destruct (pass2 E r) as [rest|] eqn:E2; [|discriminate].
+    inversion H; subst pl. cbn [combine map fold_left fst snd]. rewrite (IH rest _ eq_refl). unfold gstep at 2. cbn [fst snd]. rewrite E1. reflexivity.
+Qed.
+
+Lemma gdict_fold E items : fold_left (gstep E) (rev items) [] = gdict E items.
+Proof.
+  rewrite <- fold_left_rev_right, rev_involutive. induction items as [|(a, it) r IH]; [reflexivity|].
+  cbn [fold_right gdict]. rewrite IH. unfold gstep. cbn [fst snd]. reflexivity.
+Qed.
+
+Lemma pass2_all E : forall its pl, pass2 E its = Some pl -> forall a it, In (a, it) its -> pass2_item E a it <> None.
+Proof.
+  induction its as [|(a0, it0) r IH]; intros pl H a it Hi; [destruct Hi|]. cbn [pass2] in H.
+  destruct (pass2_item E a0 it0) as [b|] eqn:E1; [|discriminate]. destruct (pass2 E r) as [rest|] eqn:E2; [|discriminate].
+  destruct Hi as [Hi|Hi]; [inversion Hi; subst; congruence|eapply IH; eauto].
+Qed.
+
+Lemma simT_set_local E st cur ek G ts v : SimT E st cur ek G ts -> SimT E (set_local_tasks st v) cur ek G ts.
+Proof. intros H. pose proof H as [R T V C Er Gt A D L P W]. eapply simT_transport; [| | | | | |exact H]; auto. Qed.
+
+Lemma finalize_ext dbg st ok st' : finalize dbg st = Ret ok st' -> ext st st'.
+Proof.
+  unfold finalize, CtxModel.bind.
+  destruct (final_loop dbg task_rounds (global_tasks st) (set_global_tasks st [])) as [ab st1| |] eqn:FL; try discriminate.
+  apply final_loop_spec in FL. destruct FL as (FL & _). intros H; inversion H; subst. exact FL.
+Qed.
+
+Lemma clean_back a b : ext a b -> errors b = [] -> errors a = [].
+Proof. intros (l & H) Z. rewrite H in Z. destruct l; [exact Z|discriminate]. Qed.
+
+(* the class of programs: every statement (in the table pass 1 has reached before it) is in the class of LayoutStep.stmt_ok *)
+Definition C05_class (fs : str -> option (list N)) (E : env) (els : list element) : Prop := class_from fs E (mkP1 None [] []) els.
+
+Theorem layout_general fs path text els placed env regions :
+  parse_source text = Parsed (map Text.ParseModel.IOk els) None ->
+  layout_spec fs (map e_val els) = Some (placed, env) ->
+  C05_class fs env els ->
+  pipeline fs path text = Done Success [] regions ->
+  regions = image_of placed.
+Proof.
+  intros HPa HL HC HPi.
+  unfold layout_spec in HL. destruct (pass1 fs (mkP1 None [] []) (map e_val els)) as [sF|] eqn:P1; [|discriminate].
+  destruct (pass2 (p_env sF) (rev (p_items sF))) as [pl|] eqn:P2; [|discriminate]. inversion HL; subst placed env. clear HL.
+  set (E := p_env sF) in *.
+  unfold pipeline, pipeline_gen, pipeline_state in HPi. unfold CtxModel.bind in HPi.
+  destruct (assemble false fs include_fuel init_state text path) as [r0 st1| |] eqn:AS; try discriminate.
+  destruct (close_segment false st1) as [[b|e] st2| |] eqn:CL; try discriminate.
+  destruct (finalize false st2) as [ok st3| |] eqn:FI; try discriminate.
+  inversion HPi as [[Hok Herr Hreg]]. destruct ok; [|discriminate]. clear Hok HPi.
+  assert (Z3 : errors st3 = []) by (apply (f_equal (@rev _)) in Herr; rewrite rev_involutive in Herr; exact Herr).
+  pose proof (clean_back _ _ (finalize_ext _ _ _ _ FI) Z3) as Z2.
+  assert (Z1 : errors st1 = []) by (rewrite <- (close_segment_same _ _ _ _ CL); exact Z2).
+  (* the file *)
+  change include_fuel with (S 63) in AS. cbn [assemble] in AS. unfold assemble_body in AS.
+  set (st0 := mkState [] Inactive [] (Some []) [] (Some []) [] [path] path).
+  set (fr := mkFrame 1 unknown_name None None).
+  change (enter_file init_state path) with (st0, fr) in AS. unfold CtxModel.bind in AS.
+  assert (IO : inc_ok (assemble false fs 63)) by (intros ? ? ? ? ?; apply assemble_reported).
+  destruct (do_assemble false fs (assemble false fs 63) st0 text) as [r sta| |] eqn:DA; try discriminate.
+  match type of AS with match ?X with _ => _ end = _ => destruct X as [r' stb| |] eqn:LL; try discriminate end.
+  destruct (leave_file stb fr) as [[] stc| |] eqn:LF; try discriminate. inversion AS; subst r0 st1. clear AS.
+  assert (Zb : errors stb = []) by (rewrite <- (leave_file_same _ _ _ _ LF); exact Z1).
+  assert (EXab : ext sta stb).
+  { destruct (res_is_fatal r); [inversion LL; apply ext_refl|]. destruct (local_tasks sta); [|discriminate].
+    apply local_loop_spec in LL. destruct LL as (LL & _). eapply ext_trans; [|exact LL]. exists []. reflexivity. }
+  pose proof (clean_back _ _ EXab Zb) as Za.
+  pose proof (do_assemble_spec _ _ _ _ _ _ _ IO DA) as (_ & PA).
+  destruct r as [lv|]; [exfalso; eapply pushed_nonempty; [apply PA; discriminate|exact Za]|].
+  unfold do_assemble in DA. rewrite HPa in DA. unfold CtxModel.bind in DA.
+  destruct (run_items false fs (assemble false fs 63) (map Text.ParseModel.IOk els) st0) as [r1 sta1| |] eqn:RI; try discriminate.
+  destruct r1; inversion DA; subst sta1. clear DA.
+  assert (S0 : Sim E st0 (p_cur (mkP1 None [] [])) (p_env (mkP1 None [] [])) (gdict E (p_items (mkP1 None [] [])))).
+  { exists []. split; [reflexivity|]. constructor; cbn; auto.
+    - exists [], path, []. repeat split; auto. intros n. reflexivity.
+    - intros n v Hn. discriminate.
+    - intros x. tauto. }
+  assert (H2 : forall a it, In (a, it) (p_items sF) -> pass2_item E a it <> None).
+  { intros a it Hi. apply (pass2_all E _ _ P2). apply in_rev in Hi. exact Hi. }
+  destruct (sim_run false fs _ E IO els st0 _ sta sF S0 HC RI Za P1 (env_le_refl E) H2) as (ts & ELT & HT).
+  (* the tasks *)
+  cbn [res_is_fatal] in LL. rewrite ELT in LL.
+  assert (HB : SimT E stb (p_cur sF) E (gdict E (p_items sF)) [] /\ r' = None).
+  { change task_rounds with (S 3) in LL. cbn [local_loop] in LL. destruct ts as [|t0 tl].
+    - inversion LL; subst. split; [apply simT_set_local; exact HT|reflexivity].
+    - unfold CtxModel.bind in LL.
+      destruct (local_round false (t0 :: tl) (set_local_tasks sta (Some [])) None) as [r1 stR| |] eqn:LR; try discriminate.
+      destruct (local_tasks stR) as [newt|] eqn:ER; [|discriminate].
+      assert (EXR : ext stR stb).
+      { destruct (res_is_fatal r1); [inversion LL; exists []; reflexivity|].
+        apply local_loop_spec in LL. destruct LL as (LL & _). eapply ext_trans; [|exact LL]. exists []. reflexivity. }
+      destruct (local_round_sim false E (t0 :: tl) _ _ _ _ _ (simT_set_local _ _ _ _ _ _ (Some []) HT) eq_refl LR (clean_back _ _ EXR Zb))
+        as (-> & HR & ER').
+      rewrite ER in ER'. inversion ER'; subst newt. cbn [res_is_fatal local_loop] in LL. inversion LL; subst.
+      split; [apply simT_set_local; exact HR|reflexivity]. }
+  destruct HB as (HB & ->). pose proof HB as [R T V C Er Gt A D L P W].
+  (* leave, close, finalize *)
+  unfold leave_file in LF. destruct (negb (Nat.eqb (List.length (path_stack stb)) (f_count fr))); [discriminate|].
+  destruct (path_stack stb) as [|p0 stack]; [discriminate|]. cbn [f_constants f_tasks f_name fr] in LF. inversion LF; subst stc. clear LF.
+  match type of CL with close_segment _ ?s = _ => set (stc := s) in * end.
+  assert (IVc : Inv stc).
+  { split; [exact R|]. cbn [active stc]. destruct (p_cur sF); [destruct C as (sg & EA & HI & _); rewrite EA; exact HI|rewrite C; exact I]. }
+  destruct (view_close false stc b st2 IVc CL) as ((R2 & _) & A2 & V2 & _ & _ & _ & G2 & _).
+  unfold finalize in FI. rewrite G2 in FI. cbn [global_tasks stc] in FI. rewrite Gt in FI.
+  change task_rounds with (S 3) in FI. cbn [final_loop CtxModel.bind] in FI. inversion FI; subst st3.
+  cbn [output set_global_tasks] in Hreg. subst regions.
+  unfold map_iter. rewrite <- (iter_is_runs _ R2). unfold map_iter, image_of. f_equal.
+  rewrite pass2_fold with (E := E) by exact P2. rewrite gdict_fold.
+  apply (asc_ext _ _ 0 SPACE); [|exact A|].
+  - apply asc_abs; [exact R2|]. intros s Hs. destruct (Rep_In_ok _ _ R2 Hs) as (S1 & S2 & S3). unfold SPACE, MapModel.U32 in *. lia.
+  - intros x. transitivity (view st2 x); [unfold view; rewrite A2; reflexivity|].
+    rewrite V2. transitivity (view stb x); [reflexivity|]. apply W. intros t [].
 Qed.
